@@ -145,6 +145,14 @@ let handle (line : string) : string =
       let r = p_range () in
       let l = p_strlist () in
       "R " ^ show_outcome show_strlist (x_apply_range_str l r) ^ " | " ^ show_strlist (x_select_str r l)
+  | "TYPE" ->
+      (* TYPE <ops> -> R <infer: s|l|none> <well_typed 0|1> *)
+      let ops = p_ops () in
+      let k = (match x_infer ops with Some KStr -> "s" | Some KList -> "l" | None -> "none") in
+      "R " ^ k ^ " " ^ (if x_well_typed ops then "1" else "0")
+  | "LASTSEP" ->
+      let ops = p_ops () in
+      "R " ^ hex_of_str (x_last_sep ops)
   | "PING" -> "R pong"
   | t -> "R error unknown request " ^ t
 
